@@ -8,12 +8,11 @@
       mie_f/mieangfuncs.f90          asm_mie_far, calc_scat_field, incfield, fieldstocart, radial_vect_to_cart,
                                      mie_fields, tmatrix_fields (cshift / reshape / -0.5)  -> [asm_far] ... [tm_field_pt]
       multisphere.py                 _asm_far (np.roll(.,-1).reshape(2,2) * -0.5)          -> [tm_pack]
-      tmatrix.py                     raw_fields (postfactor, einc = [1,0])                 -> [tmat_field_sph]
       mielensfunctions.py            MieScatteringMatrix._eval                             -> [mls_perp], [mls_par]
 
     ORACLE LEAVES (never re-implemented; arguments of the model): psi_n, xi_n (riccati_psi_xi), D_n(mx) (lentz_dn1 +
     dn_1_down), D1/D3 (log_der_13), Q (Qratio), spherical_jn / spherical_yn, pi_n / tau_n (pisandtaus), cos/sin of the
-    angles, i/kr*exp(i kr), the radial sums (asm_mie_fullradial, radial_field_mie, asmfr, ms_radial_fields, asm, ampld).
+    angles, i/kr*exp(i kr), the radial sums (asm_mie_fullradial, radial_field_mie, asmfr, ms_radial_fields, asm).
 
     The coefficient algebra lives in a Section over ANY carrier [F] with field-like operations ([Ops F]); it is run
     with F = Q(i) ([cx_ops QO]) and reasoned about with F = C ([cx_ops RO]) -- or any field at all. *)
@@ -211,14 +210,6 @@ Definition tm_field_pt (rad : bool) (sa : list F) (ra : F * F) (pf ex ey ct st c
   let E := fieldstocart (calc_scat_field pf (tm_pack sa) (incfield ex ey cp sp)) ct st cp sp in
   let e := incfield ex ey cp sp in
   if rad then vadd3 E (radial_vect_to_cart ((fst e * fst ra + snd e * snd ra) * mhalf) ct st cp sp) else E.
-(** Tmatrix.raw_fields, one point: calc_scat_field(kr, phi, dot(S, postfactor), [1,0]) *)
-Definition mmul22 (A B : mat22) : mat22 :=
-  let '((a11, a12), (a21, a22)) := A in let '((b11, b12), (b21, b22)) := B in
-  ((a11 * b11 + a12 * b21, a11 * b12 + a12 * b22), (a21 * b11 + a22 * b21, a21 * b12 + a22 * b22)).
-Definition tmat_field_sph (pf : F) (S : mat22) (cp sp : F) : F * F :=
-  calc_scat_field pf (mmul22 S ((cp, sp), (- sp, cp))) (incfield 1 0 cp sp).
-Definition tmat_field_pt (pf : F) (S : mat22) (ct st cp sp : F) : vec3 :=
-  fieldstocart (tmat_field_sph pf S cp sp) ct st cp sp.
 End Coef.
 Arguments leaf F : clear implicits. Arguments mat22 F : clear implicits. Arguments vec3 F : clear implicits.
 
@@ -265,16 +256,22 @@ End Cmp.
 (** EVALUATOR arithmetic for the correspondence check.  Exact rational evaluation of the recursions explodes
     (every division multiplies denominators; depth ~25 for 4 layers), so the generic definitions above are run
     over [QF]: rationals rounded (toward -oo on the mantissa) to [prec] significant bits after every operation --
-    a binary floating-point arithmetic with 2^-200 relative error per operation, inside Coq, no Axiom.
+    a binary floating-point arithmetic with 2^-128 relative error per operation, inside Coq, no Axiom.
     The exact instance [QO] is still used where the comparison is exact (LayeredSphere.r). *)
-Definition prec : Z := 200.
+Definition prec : Z := 128.
 Definition qround (q : Q) : Q :=
   let n := Qnum q in let d := Zpos (Qden q) in
   if (n =? 0)%Z then 0%Q else
-  let e := (Z.log2 (Z.abs n) - Z.log2 d)%Z in
+  let ld := Z.log2 d in
+  let e := (Z.log2 (Z.abs n) - ld)%Z in
   let s := (prec - e)%Z in
-  if (0 <=? s)%Z then Qmake ((n * 2 ^ s) / d) (Z.to_pos (2 ^ s))
-  else Qmake ((n / (d * 2 ^ (- s))) * 2 ^ (- s)) 1.
+  if (Z.shiftl 1 ld =? d)%Z then
+    (* denominator is a power of two (always, except right after an inversion): pure shifts *)
+    if (0 <=? s)%Z then Qmake (Z.shiftl n (s - ld)) (Z.to_pos (Z.shiftl 1 s))
+    else Qmake (Z.shiftl (Z.shiftl n (s - ld)) (- s)) 1
+  else
+    if (0 <=? s)%Z then Qmake ((Z.shiftl n s) / d) (Z.to_pos (Z.shiftl 1 s))
+    else Qmake (Z.shiftl (n / (Z.shiftl d (- s))) (- s)) 1.
 Definition QF : Ops Q :=
   mkOps Q 0%Q 1%Q (fun a b => qround (a + b)) (fun a b => qround (a * b)) (fun a b => qround (a - b)) Qopp
         (fun a => qround (/ a)) Qltb Qle_bool Qeq_bool (fun z => inject_Z z).
